@@ -23,8 +23,8 @@ def run(ctx):
         res = sys_c10.run(os.path.join(ctx.work, 'sys'), 'c10', 2 if ctx.quick() else 20)
         ctx.evaluations += res['rounds']; ctx.samples += res['samples'][:1]; ctx.cov['system_rounds'] = res['rounds']
         monitor_failures(ctx, res['fails'], findings, 'system hit-over-open-file monitor', rp)
-    ctx.rules.append('h_extract: 1-3 outputs, each existing (with an open descriptor / a hard link) or absent, entries with a corrupt (CRC) or missing member at a random position, optional flags; '
-                     'non-trivial = cases with a failing member; system: a reader in the middle of the old file while a hit restores the path')
+    ctx.rules.append('h_extract: 1-3 outputs, each existing (a regular file or, one in four, a symbolic link to the file with the old bytes; with an open descriptor / a hard link) or absent, entries with a corrupt (CRC) or missing member at a random position, optional flags; '
+                     'non-trivial = cases with a failing member; system: a reader in the middle of the old file while a hit restores the path (every second round the path is a symbolic link)')
     ctx.assumptions += ['POSIX rename/unlink semantics on a local file system (NFS-like semantics are outside the model)', 'extract_objects is one blocking call: its intermediate states are reached in the model, observed on the real code only through old descriptors and the final directory']
 
 def replay(ctx, path):
